@@ -75,6 +75,11 @@ func (d *sdriver) SendProbe(ttl uint8) error {
 			// the same TTL is answered a second time, by the destination (route change, ECMP): a destination answer for TTL k
 			d.pend = append(d.pend, resp{now + lat + int64(eDelay) + 1e6, ttl, true})
 		}
+		if d.sc.Extra == "then-router" && d.sc.K == k {
+			// the converse: the destination answered TTL k, and a router's answer for the same TTL arrives later
+			// (a late or duplicated time-exceeded); the destination has still been reached at TTL k
+			d.pend = append(d.pend, resp{now + lat + int64(eDelay) + 1e6, ttl, false})
+		}
 	}
 	return nil
 }
@@ -281,6 +286,9 @@ func eItems(tier string) []EScn {
 					if ans[k] == 1 && (sp.engine == "parallel" || (laterSilent && k < n-1)) {
 						out = append(out, EScn{Engine: sp.engine, First: sp.first, Last: sp.last, Ans: ans, Extra: "then-dest", K: k, Bound: bound})
 					}
+					if ans[k] == 2 && sp.engine == "parallel" {
+						out = append(out, EScn{Engine: sp.engine, First: sp.first, Last: sp.last, Ans: ans, Extra: "then-router", K: k, Bound: bound})
+					}
 				}
 			}
 		}
@@ -421,7 +429,7 @@ func run(tier string, idx int, r *core.ScnResult) {
 			}
 			k, detail := checkE(sc, x, res, err, d)
 			if k != "" {
-				cls := fmt.Sprintf("engine-%s/%s", sc.Engine, map[string]string{"": "plain", "dup": "duplicate", "late": "late-reply", "then-dest": "router-then-destination"}[sc.Extra])
+				cls := fmt.Sprintf("engine-%s/%s", sc.Engine, map[string]string{"": "plain", "dup": "duplicate", "late": "late-reply", "then-dest": "router-then-destination", "then-router": "destination-then-router"}[sc.Extra])
 				r.Fail(core.Failure{Key: "C03 " + cls + "/" + k, What: detail, Scenario: core.JSON(map[string]any{"engine_scn": sc}), Choices: x.Choices(), Bound: cost})
 				return false
 			}
